@@ -7,10 +7,12 @@
      toks2  the text PrintFile(d2), tokenised the same way,
      imp    the types and packages of the files imported.
    Checked: the model printer writes the real tokens (both prints); the model parser reads the real
-   tokens back as a descriptor with the content of the real re-parsed one (keys and list orders aside). *)
+   tokens back as a descriptor with the content of the real re-parsed one (keys and list orders aside);
+   both real descriptors satisfy the hypotheses of the file theorem (wf_dfile_b: they are inside
+   C05_token_roundtrip). *)
 From Coq Require Import String List NArith ZArith Bool.
 From J5V.lib Require Import Outcome Corr.
-From J5V.model Require Import ProtoPrintLit ProtoPrint ProtoPrintCorr ProtoPrintFile ProtoParseFile.
+From J5V.model Require Import ProtoPrintLit ProtoPrint ProtoPrintCorr ProtoPrintFile ProtoParseFile ProtoPrintFileWf.
 Import ListNotations.
 Local Open Scope N_scope.
 Local Open Scope bool_scope.
@@ -138,6 +140,7 @@ Definition c05_file_check (c : c05file) : bool :=
              | Some d' => dfile_content_eqb d' d2
              | None => false
              end
+          && wf_dfile_b imp d && wf_dfile_b imp d2
       | None => false
       end
   end.
@@ -156,7 +159,8 @@ Definition c05_file_diag (c : c05file) : N :=
             | Some s =>
                 match interp_file imp s with
                 | None => 4
-                | Some d' => if dfile_content_eqb d' d2 then 0 else 5
+                | Some d' => if negb (dfile_content_eqb d' d2) then 5
+                             else if negb (wf_dfile_b imp d) then 6 else if negb (wf_dfile_b imp d2) then 7 else 0
                 end
             end
       | None => 9
